@@ -150,3 +150,26 @@ MANIFEST_TEXT["C07"] = dict(
          "produce the destination values of the all-on-argv evaluation and of the model, and file/env values can be overridden on argv. " + EXPL,
     design_ref="DESIGN.md section 4/C07", note=MODEL_NOTE + " File and environment are real (per-process scratch HOME directory, setenv).",
     technique="property-based testing (rapidcheck): round-trip + differential (source equivalence) + reference model, bounded exhaustive enumeration for the splitter, under ASan/UBSan")
+
+PROPS["C08"] = dict(
+    units=[dict(harness="argh", mode="groups", quick=dict(cases=30000), thorough=dict(cases=250000, shards=16))],
+    rule="rule-rich configuration (as C03) x partition of its arguments over 1..4 named member handlers of the Groups singleton "
+         "(arguments linked by a constraint stay in one member) x a rule-obeying line or a line with one rule-breaking mutation "
+         "(22 kinds, as C02), spelled with the full spelling function. Oracle (differential): Groups::evalArguments and "
+         "Handler::evalArguments on one handler owning all arguments give the same accept/reject verdict and, on accept, the same "
+         "destination values. Non-trivial = arguments of >= 2 different members are used on the line; distinct by case hash.",
+    require_classes=dict(all=["groups.both_accept", "groups.both_reject", "groups.members_1", "groups.members_2", "groups.members_4",
+                              "groups.enforced.missing_required", "groups.enforced.all_of_partial", "groups.enforced.one_of_none",
+                              "groups.enforced.drop_mandatory", "groups.enforced.duplicate_use", "groups.enforced.check_violation",
+                              "groups.enforced.ambiguous_or_unknown_prefix", "groups.enforced.excluded_after_excluder"]),
+    assumptions=DOMAIN_ASSUMPTIONS + [
+        "--endvalues is an argument of ONE handler (a second member defining it is refused), so hfEndValues is left out",
+        "value mode 'command' and positional arguments are not generated (free values have no key)",
+        "constraints live inside one member (argument constraints are per handler by design)"],
+)
+MANIFEST_TEXT["C08"] = dict(
+    text="Differential testing: the same generated command line (valid or rule-breaking) is evaluated through an argument group with a "
+         "generated partition of the arguments and through a single handler owning all of them; verdict and stored values must agree. " + EXPL,
+    design_ref="DESIGN.md sections 3 and 4/C08",
+    note="The reference is the library's own single-handler evaluation (which C01-C03 check against the independent model); Groups is a singleton that is reset before every case.",
+    technique="property-based testing (rapidcheck): differential oracle (group evaluation vs. merged single handler), under ASan/UBSan")
